@@ -69,6 +69,69 @@ def gen_cases(tier, rng):
     return cases, n_exh
 
 
+
+def target_leg(run, rng, har, drv, tier, stats):
+    """every target string on the command line: the invocation proceeds or is refused with a diagnostic, never panics;
+    the model's target resolution (C12_target_safe is about it) agrees"""
+    import sched as S
+    alpha = [b"a", b".", b"/", b"\\", b" "]
+    targets = [b""]
+    for n in range(1, 5 if tier == "quick" else 6):
+        for t in itertools.product(alpha, repeat=n):
+            targets.append(b"".join(t))
+    targets += [b"out/gen", b"out/gen/", b"./out//gen", b"out/x/../gen", b"\xc3\xa9", "日本/é".encode(), b"a\0b", b"a\nb", b"$out", b"a" * 5000,
+                b"/".join([b"d%d" % i for i in range(59)]), b"/".join([b"d%d" % i for i in range(70)]), b"../" * 30 + b"a", b"a/" * 40 + b"../" * 40 + b"a"]
+    man = "rule r\n  command = cmd x $out\nbuild out/gen: r in\nbuild a: r in\nbuild a/b: r in\ndefault a\n"
+    scens, metas = [], []
+    for t in targets:
+        names = [t] if rng.random() < 0.7 else rng.choice([[b"a", t], [t, b"a"], [t, t]])
+        if t == b"":
+            names = [b"", b"a"]          # (a lone empty name cannot be told from "no targets" in the scenario encoding)
+        scens.append("\n".join(["file %s %s" % (S.hx("build.ninja"), S.hx(man)), "file %s %s" % (S.hx("in"), S.hx("v")),
+                                 S.inv_cmd(1, None, False, names, "-")]))
+        metas.append(names)
+    reps = S.run_histories(har, scens)
+    items = []
+    for sc, names, rep in zip(scens, metas, reps):
+        where = {"scenario": sc, "targets": [repr(n) for n in names]}
+        if isinstance(rep, str) or not rep:
+            cls = "too-many-path-components" if isinstance(rep, str) and "too many path components" in rep else None
+            run.report_failure(cls, "command-line targets %r: n2 did not return (%s)" % ([n[:40] for n in names], str(rep)[:160]), where)
+            continue
+        inv = rep[0]
+        kind = inv.result.split(":")[0]
+        stats["target_" + kind] = stats.get("target_" + kind, 0) + 1
+        if kind == "panic":
+            msg = unhexs(inv.result[6:]).decode("utf-8", "replace")
+            cls = "too-many-path-components" if "too many path components" in msg else None
+            run.report_failure(cls, "command-line targets %r: no diagnostic, panic %s" % ([n[:40] for n in names], msg[:160]), where)
+            continue
+        items.append((sc, inv, names))
+    sreps = S.replay_invocations(drv, [(inv, 1, None, False, [n.decode("utf-8", "surrogateescape") for n in names]) for _, inv, names in items])
+    for (sc, inv, names), srep in zip(items, sreps):
+        S.check_acceptance(run, PROP, sc, 0, inv, None, srep)
+    stats["target_strings"] = len(targets)
+    n2, out_ = build_n2_binary()
+    if n2 is None:
+        run.tie("n2 build", out_[-1000:])
+        return
+    import tempfile, shutil
+    d = tempfile.mkdtemp(prefix="n2verif-c12-%d-" % os.getpid())
+    try:
+        open(os.path.join(d, "build.ninja"), "w").write(man.replace("cmd x $out", "touch $out"))
+        open(os.path.join(d, "in"), "w").write("v")
+        for t in [b"\xff\xfe", b"a\xc3", b"/", b"//", b"\\", b"", b"a//", b"./", b".."]:
+            p_ = subprocess.run([n2.encode(), t], cwd=d, stdout=subprocess.PIPE, stderr=subprocess.STDOUT, stdin=subprocess.DEVNULL, timeout=60, env=ENV)
+            txt = p_.stdout.decode("utf-8", "replace")
+            stats["blackbox_targets"] = stats.get("blackbox_targets", 0) + 1
+            if p_.returncode not in (0, 1, 2) or "panicked" in txt or "RUST_BACKTRACE" in txt:
+                run.report_failure(None, "n2 %r: exit status %d without a diagnostic: %s" % (t, p_.returncode, txt[-200:]), {"target": repr(t), "output": txt[-400:]})
+            elif p_.returncode != 0 and "n2: error:" not in txt and "error:" not in txt.lower():
+                run.report_failure(None, "n2 %r: refused without an `n2: error:` diagnostic: %s" % (t, txt[-200:]), {"target": repr(t), "output": txt[-400:]})
+    finally:
+        shutil.rmtree(d, ignore_errors=True)
+
+
 def main(tier, seed, replay=None):
     run = Run(PROP, tier, seed, "proof")
     rng = random.Random(seed)
@@ -138,6 +201,20 @@ def main(tier, seed, replay=None):
             elif kind == "abort" or "unsafe precondition" in r or "scanned past end" in r:
                 cls = None
             run.report_failure(cls, "manifest %r: no diagnostic, %s" % (c[:80], r[:160]), where)
+    if not replay:
+        target_leg(run, rng, har, drv, tier, stats)
+        # every depfile: totality of depfile::parse over short strings (its grammar is C15's subject)
+        alpha = [b"a", b" ", b":", b"\\", b"\n"]
+        dcases = [b""]
+        for n in range(1, 7 if tier == "quick" else 9):
+            dcases += [b"".join(t) for t in itertools.product(alpha, repeat=n)]
+        dcases += [b"o: a\\", b"o: C:\\x\\", b"o: a \\", b"\\", b"o:\\\r\n a", b"o: \xc3", b"\0", b"o: a\0b\n"]
+        dres = run_lines_sharded([har, "depfile"], [hexs(c) for c in dcases])
+        stats["depfile_strings"] = len(dcases)
+        for c, r in zip(dcases, dres):
+            if not (r.startswith("ok") or r.startswith("err")):
+                run.report_failure(None, "depfile %r: depfile::parse did not return a result or a diagnostic: %s" % (c[:60], r[:160]),
+                                   {"depfile_hex": hexs(c), "result": r[:300]})
     run.coverage.update(info)
     run.coverage.update({
         "checker_cmd": "make -C coq theories/Props/C12.vo && coqc Gate_C12.v",
